@@ -125,6 +125,11 @@ def run_shape(shape, tier):
         try:
             got = sqlprogs.strip_ignored(sqlmodel.select(ex, env.tables))
         except sqlmodel.OutsideModel as e:
+            # the program is determinate, yet the statement is outside the model (e.g. OFFSET without ORDER BY): remember the
+            # parameter values of this path so that the statement is at least executed on the real SQLite afterwards
+            if ctx.check() == z3.sat and len(info.setdefault("outside", [])) < 4:
+                from ..symx import model_values
+                info["outside"].append(templates.bind_concrete(shape["params"], model_values(ctx.solver.model(), ctx.vars)))
             raise Skip(f"outside SQL model: {e}")
         except sqlmodel.SqlInvalid as e:
             raise Skip(f"invalid SQL: {e} (see C08)")
@@ -153,6 +158,13 @@ def run_shape(shape, tier):
         md = concrete_check(mprog, rows, bind)[2]
         vios.append({"site": f"{'>'.join(ops_of(mprog))}/{symptom}", "summary": f"{fmt(mprog)} bind={bind} tables={rows}: {symptom} {md}",
                      "replay": {"prog": to_jsonable(mprog), "rows": rows, "bind": bind, "symptom": symptom}})
+    if not vios:
+        for bind in info.get("outside", []):
+            fails, symptom, detail = concrete_check(prog, sqlprogs.BATTERY, bind)
+            if fails:
+                vios.append({"site": f"{'>'.join(ops_of(prog))}/{symptom}/statement-outside-model", "summary": f"{fmt(prog)} bind={bind} battery tables: {symptom} {detail}",
+                             "replay": {"prog": to_jsonable(prog), "rows": sqlprogs.BATTERY, "bind": bind, "symptom": symptom}})
+                break
     if vios:
         out["status"], out["violations"] = VIOLATION, vios
         return out
